@@ -810,7 +810,7 @@ func TestC20(t *testing.T) {
 // subscribed and none of them is ever unsubscribed: each must get every event exactly once and each
 // publish must count them all.
 func fanout20(t *testing.T, run *hx.Run) {
-	rounds := 2
+	rounds := 3
 	if n, err := strconv.Atoi(getenv("VERIF_CHECKS", "0")); err == nil && n > 2000 {
 		rounds = 16
 	}
